@@ -907,3 +907,15 @@ PROOF_MODULES = PROOF_MODULES + ['Compute.Props.C13Conv']
 REQUIRED_THEOREMS = REQUIRED_THEOREMS + ['Cv.C13C.predict_prefix', 'Cv.C13C.forecast_abs_le', 'Cv.C13C.predict_abs_le', 'Cv.C13C.forecast_tendsto', 'Cv.C13C.forecast_eventually', 'Cv.C13C.fit_forecast_tendsto', 'Cv.C13C.forecast_tendsto_of_spectralRadius_lt_one', 'Cv.C13C.forecast_tendsto_of_ar_roots']
 NOT_PROVED = [x for x in NOT_PROVED if not any(k in str(x) for k in ('convergence of the forecasts',))]
 NOT_PROVED = NOT_PROVED + ["that a Yule-Walker fit always yields a stationary model (not true in general for the biased estimator with this inverse route: searched by the oracle); convergence of the forecasts to the mean IS proved whenever sum|phi_j| < 1 (geometric bound c^ceil(h/p)) and, via Gelfand's formula on the companion matrix, whenever all roots of z^p - phi_1 z^(p-1) - ... - phi_p lie inside the unit disc (Props/C13Conv)"]
+
+# --- deep theorems (Rounding3)
+PROOF_MODULES = PROOF_MODULES + ['Compute.Lemmas.AcovfRounding', 'Compute.Lemmas.AcfRounding', 'Compute.Lemmas.MatmulRounding', 'Compute.Props.Rounding3']
+REQUIRED_THEOREMS = REQUIRED_THEOREMS + ['Cv.Rounding3.acovf_error', 'Cv.Rounding3.acovf_zero_error', 'Cv.Rounding3.acovf_mean_term_first_order', 'Cv.Rounding3.acf_abs_le', 'Cv.Rounding3.acf_zero_error', 'Cv.Rounding3.acf_zero_error_idem', 'Cv.Rounding3.f64_acf_note', 'Cv.Rounding3.matvec_error']
+NOT_PROVED = [x for x in NOT_PROVED if not any(k in str(x) for k in ('floating-point rounding',))]
+NOT_PROVED = NOT_PROVED + ['rounding of the fitted coefficients and forecasts (oracle only); for acovf/acf the float-level claims ARE proved in the standard model (Props/Rounding3): acovf error bound (with a provably necessary first-order mean term for lag k > 0), |acf| <= 1 + gamma, |acf(0) - 1| <= gamma_4']
+
+# --- source tie, loops (tools/rs2lean.py loops=True: accumulation loops and iterator chains regenerated from /repo/src into
+# Generated/SrcC13Loops.lean and proved equal to the hand model in Props/SrcTieC13Loops.lean)
+from . import srctie
+srctie.wire_loops(globals(), 'C13')
+PROOF_MODULES = PROOF_MODULES + ['Compute.Lemmas.SrcLoops']
